@@ -54,7 +54,18 @@ func genC11(rng *rand.Rand, n int, emit func(Case), dist map[string]int) {
 		}
 		creds := rng.Intn(2) == 0
 		unsafe := rng.Intn(3) == 0
-		mw := middleware.CORSWithConfig(middleware.CORSConfig{AllowOrigins: list, AllowCredentials: creds, UnsafeWildcardOriginWithAllowCredentials: unsafe})
+		ccfg := middleware.CORSConfig{AllowOrigins: list, AllowCredentials: creds, UnsafeWildcardOriginWithAllowCredentials: unsafe}
+		useFunc := rng.Intn(6) == 0
+		fnAllows := func(o string) bool { return strings.Contains(o, "example.com") && !strings.Contains(o, "evil") }
+		if useFunc {
+			// the allow-list as a function: it alone decides (the AllowOrigins list is then not consulted)
+			ccfg.AllowOriginFunc = func(o string) (bool, error) { return fnAllows(o), nil }
+			dist["instances_with_allow_origin_func"]++
+		}
+		mw := middleware.CORSWithConfig(ccfg)
+		if !useFunc && len(list) == 0 && !creds && !unsafe && rng.Intn(2) == 0 {
+			mw = middleware.CORS() // the short constructor: the default configuration allows every origin
+		}
 		e := echo.New()
 		ran := false
 		h := mw(func(c echo.Context) error { ran = true; return c.String(200, "ok") })
@@ -117,6 +128,15 @@ func genC11(rng *rand.Rand, n int, emit func(Case), dist map[string]int) {
 				dist["repeated_origin_on_one_instance"]++
 			}
 			usedOrigins = append(usedOrigins, origin)
+			list, eff := list, eff
+			if useFunc {
+				// for the reference and the model the function is the one-element list it stands for
+				list = []string{"https://never.invalid"}
+				if fnAllows(origin) {
+					list = []string{origin}
+				}
+				eff = list
+			}
 			method := []string{http.MethodGet, http.MethodPost, http.MethodOptions, http.MethodOptions}[rng.Intn(4)]
 			req := httptest.NewRequest(method, "/", nil)
 			if origin != "" || rng.Intn(2) == 0 {
